@@ -1,12 +1,104 @@
-/- Driver family `pack`: C15 — GameCube/Wii pack archive.  (stub: replace `family`) -/
+/- Driver family `pack`: C15 — GameCube/Wii pack archive (`fe9_arc`).
+   Case / output formats: see `harness/src/fam/pack.rs`. -/
 import Driver.Common
+import MilaModel.Model.Fe9Arc
+import MilaModel.Spec.PackImage
 
 namespace Driver.Pack
 open Mila
 
+/-- `<n> (<name-hex> <body-hex>)*` → files; `none` if malformed. -/
+def filesOfFields : List String → Option (List (Bytes × Bytes))
+  | [] => none
+  | n :: rest =>
+    let rec go : Nat → List String → Option (List (Bytes × Bytes))
+      | 0, [] => some []
+      | 0, _ :: _ => none
+      | k + 1, a :: b :: tl => do
+        let x ← bytesOfHex a
+        let y ← bytesOfHex b
+        let r ← go k tl
+        pure ((x, y) :: r)
+      | _ + 1, _ => none
+    match n.toNat? with
+    | some k => go k rest
+    | none => none
+
+def filesStr (m : List (Bytes × Bytes)) : String :=
+  m.foldl (fun s kv => s ++ " " ++ hexOfBytes kv.1 ++ " " ++ hexOfBytes kv.2) (toString m.length)
+
+/-- Error classes are not part of the property: print `err` only. -/
+def resStr' {α : Type} (f : α → String) : Res α → String
+  | .ok a => "ok " ++ f a
+  | .err _ => "err"
+  | .panic => "panic"
+
+def enc := sjisSub.enc
+
+/-- Parsed files; `?` when a name lies outside the sub-codec alphabet (corrupted images only). -/
+def parsedStr (m : List (Bytes × Bytes)) : String :=
+  if m.all (fun kv => (enc kv.1).isSome) then filesStr m else "?"
+
+/-- Model line for `build`: serialize, then parse the produced image. -/
+def modelBuild (m : List (Bytes × Bytes)) : String :=
+  match Fe9Arc.serialize sjisSub m with
+  | .ok img => "ok " ++ hexOfBytes img ++ " " ++
+      (match Fe9Arc.parse sjisSub img with
+       | .ok back => filesStr back
+       | .err _ => "err"
+       | .panic => "panic")
+  | .err _ => "err"
+  | .panic => "panic"
+
+/-- Spec oracle for `build`, judged on the implementation's image and re-parsed map. -/
+def oracleBuild (m : List (Bytes × Bytes)) (impl : List String) : String :=
+  if !decide (Spec.Pack.DistinctNames m) || m.length > 65535 then "ok skip" else
+  match impl with
+  | _ :: "ok" :: imgHex :: back =>
+    match bytesOfHex imgHex with
+    | none => "FAIL unreadable image"
+    | some img =>
+      if !decide (Spec.Pack.ConformsPack enc img m) then
+        "FAIL built image is not a pack image of the input files (header count / record / name / body)"
+      else if !decide (Spec.Pack.Aligned32 img m.length) then
+        "FAIL a file does not start on a 32-byte boundary"
+      else match filesOfFields back with
+        | some b => if b = m then "ok" else "FAIL parse(serialize m) differs from m"
+        | none => "FAIL parse(serialize m) is not ok"
+  | _ => "FAIL serialize did not return an image"
+
+/-- Spec oracle for `parse` of a spec-built image with the files it was built from. -/
+def oracleParse (img : Bytes) (expect : Option (List (Bytes × Bytes))) (impl : List String) : String :=
+  if impl.getD 1 "" == "panic" then "FAIL panic" else
+  match expect with
+  | none => "ok skip malformed"
+  | some m =>
+    if !decide (Spec.Pack.DistinctNames m) then "ok skip duplicate-names" else
+    if !decide (Spec.Pack.ConformsPack enc img m) then "FAIL generator: image does not conform to the files" else
+    match impl with
+    | _ :: "ok" :: back =>
+      match filesOfFields back with
+      | some b => if b = m then "ok" else "FAIL parsed files differ from the files of the conforming image"
+      | none => "FAIL unreadable output"
+    | _ => "FAIL conforming image rejected"
+
 def family : Family where
   State := Unit
   init := ()
-  step := fun _ _ _ => ((), "unimplemented", "FAIL unimplemented")
+  step := fun _ c i =>
+    match c with
+    | _ :: "build" :: rest =>
+      match filesOfFields rest with
+      | some m => ((), modelBuild m, oracleBuild m i)
+      | none => ((), "bad-case", "FAIL bad-case")
+    | _ :: "parse" :: imgHex :: rest =>
+      match bytesOfHex imgHex with
+      | some img =>
+        let expect := if rest = ["~"] then some none else (filesOfFields rest).map some
+        match expect with
+        | some ex => ((), resStr' parsedStr (Fe9Arc.parse sjisSub img), oracleParse img ex i)
+        | none => ((), "bad-case", "FAIL bad-case")
+      | none => ((), "bad-case", "FAIL bad-case")
+    | _ => ((), "bad-case", "FAIL bad-case")
 
 end Driver.Pack
